@@ -11,6 +11,15 @@ import (
 )
 
 func shortName(fn *ssa.Function) string {
+	if s, ok := shortNameMemo[fn]; ok {
+		return s
+	}
+	s := shortNameRaw(fn)
+	shortNameMemo[fn] = s
+	return s
+}
+
+func shortNameRaw(fn *ssa.Function) string {
 	s := fn.String()
 	s = strings.ReplaceAll(s, "github.com/antonmedv/expr/", "")
 	s = strings.ReplaceAll(s, "github.com/antonmedv/expr.", "expr.")
